@@ -951,6 +951,8 @@ Fixpoint dict_del {A} (k : str) (d : list (str * A)) : list (str * A) :=
 
 Definition add_nick (db : list user) (u : user) (net nick : str) (valid : bool) : user * option exn :=
   if negb valid then (u, Some AssertionError) else
+  (* network.split() != [network] or nick.split() != [nick]  ->  ValueError (table ADDNICK_REFUSES_WHITESPACE) *)
+  if gen.T16.ADDNICK_REFUSES_WHITESPACE && negb (token net && token nick) then (u, Some ValueError) else
   let u1 := if gen.T16.ADDNICK_LIST_BEFORE_CHECK
             then match nick_list u net with Some _ => u | None => set_nicks (dict_set net [] (u_nicks u)) u end
             else u in
